@@ -381,6 +381,7 @@ def run(repo: Repo, rep: Report, tier: str) -> None:
     rep.floor("direct generator advances", n_gen, 3)
     rep.extra["exhaustive"] = False
     check_exc_truth(repo, rep)
+    rep.floor("uses of the handler's iterable in _wrap_handler", check_wrap_handler_uses(repo, rep), 1)
 
 def check_exc_truth(repo: Repo, rep: Report) -> None:
     """_wrap_handler reports what a user's generator raised as the second element of what it yields, and
@@ -448,3 +449,28 @@ def check_exc_truth(repo: Repo, rep: Report) -> None:
                             ok = kinds == {"exc_info"}
                             rep.check(ok, "exc-truth", fq, x if isinstance(x, ast.stmt) else enclosing(x, (ast.stmt,)), f"`{ev_name}` is truth-tested, but _wrap_handler yields {sorted(kinds)} for a raised exception: on an exception instance this runs the user's __bool__ / __len__ - a falsy exception is taken for 'no exception' (the loop then unpacks None and the TypeError aborts the association instead of the documented failure response)", mod=sc, node=a)
     rep.floor("truth tests on _wrap_handler's exception slot", n, 3)
+
+
+def check_wrap_handler_uses(repo: Repo, rep: Report, rule: str = "generator-advance") -> int:
+    """_wrap_handler receives whatever the user's C-FIND / C-GET / C-MOVE handler returned: a generator, but
+    equally a list, a zip or any other iterable. The only thing it may do with it is iterate it, inside the
+    try whose `except Exception` reports a failure as a result. Anything else - a method call such as
+    .close() / .send() / .throw(), an attribute read, an operation in a finally / else clause - assumes a
+    generator and raises AttributeError (outside the try) for other iterables: the exception leaves the
+    service class, the association is aborted and the request gets no final response."""
+    sc = repo.mod("service_class")
+    wh = repo.func("service_class", "ServiceClass._wrap_handler")
+    fq = "service_class.ServiceClass._wrap_handler"
+    p = wh.args.args[1].arg
+    n = 0
+    for x in walk_no_nested(wh):
+        if not (isinstance(x, ast.Name) and x.id == p and isinstance(x.ctx, ast.Load)):
+            continue
+        n += 1
+        par = parent(x)
+        t = enclosing(x, (ast.Try,))
+        in_guarded_body = t is not None and any(x in list(ast.walk(s_)) for s_ in t.body) and any(h.type is None or norm(h.type) in ("Exception", "BaseException") for h in t.handlers)
+        iterates = (isinstance(par, ast.For) and par.iter is x) or (isinstance(par, ast.Call) and norm(par.func) in ("next", "iter") and x in par.args) or isinstance(par, ast.YieldFrom)
+        ok = iterates and in_guarded_body
+        rep.check(ok, rule, fq, enclosing(x, (ast.stmt,)) or x, f"`{norm(par)[:50]}` uses the object the user's handler returned for something other than iterating it inside the guarded try: for a handler that returns a list / zip / map instead of a generator this raises (AttributeError) outside the `except Exception`, so the handler's outcome is not reported as a result - the association is aborted instead of answering", mod=sc, node=x)
+    return n
